@@ -235,6 +235,53 @@ func c18Check(c *core.Ctx, data any, where string) bool {
 	return true
 }
 
+// c18JSONLiterals: integer literals of a JSON document that float64 cannot hold exactly, into integer destinations. The
+// statement allows two outcomes: the same number, or a coerce issue.
+var c18Literals = []string{"9007199254740993", "-9007199254740993", "9007199254740995", "1152921504606846977", "4611686018427400249", "-4611686018427400249",
+	"9223372036854775807", "-9223372036854775807", "9223372036854775295", "9007199254740992", "9007199254740994", "36028797018963969", "123456789012345678"}
+
+func c18JSONLiterals(c *core.Ctx) bool {
+	for _, lit := range c18Literals {
+		exact, _ := new(big.Int).SetString(lit, 10)
+		for _, k := range []spec.Kind{spec.Int, spec.Int64} {
+			root := &spec.Node{Kind: spec.Struct, Fields: []spec.Field{{Key: "v", GoName: "V", Node: &spec.Node{Kind: k}}}}
+			root.Number()
+			o := run.Parse(spec.Build(root, nil), zjson.Decode(strings.NewReader(`{"v": `+lit+`}`)), nil)
+			c.Eval(1)
+			det := map[string]any{"json_document": `{"v": ` + lit + `}`, "destination_type": k.String(), "issues": issuesText(o), "observed_destination": obs.Render(o.Dest)}
+			if o.Panicked {
+				det["panic"] = fmt.Sprint(o.Panic)
+				c.Violation("panic|"+k.String(), det)
+				return false
+			}
+			if len(o.Issues) > 0 {
+				if len(o.Issues) != 1 || o.Issues[0].Code != "coerce" {
+					c.Violation("number-silently-changed-or-wrongly-rejected|"+k.String(), det)
+					return false
+				}
+				continue // a coerce issue is one of the two allowed outcomes
+			}
+			m, _ := o.Dest.(map[string]any)
+			got := new(big.Int).SetInt64(reflect.ValueOf(m["V"]).Int())
+			if got.Cmp(exact) == 0 {
+				c.NonTrivial("jsonlit|" + lit + "|" + k.String())
+				continue
+			}
+			f, _ := new(big.Float).SetInt(exact).Float64()
+			viaFloat, acc := new(big.Float).SetFloat64(f).Int(nil)
+			sig := "number-silently-changed|json-integer-literal"
+			if acc == big.Exact && viaFloat.Cmp(got) == 0 {
+				// narrow class: exactly the value the literal has after the JSON decoder stored it in a float64
+				sig = "number-silently-changed|json-integer-literal-beyond-2^53-rounded-by-the-json-decoder"
+			}
+			det["sent"], det["stored"] = lit, got.String()
+			c.Violation(sig, det)
+		}
+	}
+	c.Count("json_integer_literals", len(c18Literals)*2)
+	return true
+}
+
 func altFloat32OK(data any, dest any, where string) bool {
 	s, ok := data.(string)
 	if !ok {
@@ -297,6 +344,9 @@ func randomNumber(r *rng.Rand) any {
 }
 
 func (c18) RunCase(c *core.Ctx) {
+	if c.Case == 0 && !c18JSONLiterals(c) {
+		return
+	}
 	var data any
 	if c.Case < len(c18Grid) {
 		data = c18Grid[c.Case]
